@@ -173,6 +173,15 @@ def view(W, key, label, imported, verifier=None):
         v['bind_tag'].setdefault(n, '-')
     v['verify_all'] = ok
     v['expiry_tag'] = '-'
+    # the validity period the KEY reports, as the tag class that sets it
+    try:
+        ea = key.expires_at
+        if ea is None:
+            v['key_expiry'] = 'none'
+        else:
+            v['key_expiry'] = next((t for t in ('p2', 'p3') if ea - key.created == expiry_of(t)), '?')
+    except Exception:
+        v['key_expiry'] = 'raised'
     tags = [t for t, b, r in build.read_packets(bytes(key))]
     v['tags'] = tags
     v['grammar_ok'] = key_grammar(tags)
